@@ -164,7 +164,7 @@ def run(ctx):
 
     rng = random.Random(ctx.seed * 104729 + 2)
     quick = ctx.tier == "quick"
-    n_synth, n_stock = (500, 90) if quick else (6000, 900)
+    n_synth, n_stock = (1200, 200) if quick else (9000, 1400)
 
     def length():
         r = rng.random()
@@ -326,14 +326,17 @@ MANIFEST = {
             "client can read is well-formed: caret <= |input|; not composing implies no input, preedit or menu; 0 <= sel_start <= "
             "sel_end <= length and 0 <= cursor <= length; a reported menu has 0 <= highlighted < candidates on the page <= page size "
             "and page_no * page_size + highlighted = the selected index (wf_reported: an inductive invariant of Api.step, no bound "
-            "on the history).  The proof needs the source fact that Context::DeleteCandidate looks the candidate up before writing "
+            "on the history); and, for ASCII raw input and translators whose candidate texts/preedits start at character "
+            "boundaries, that sel_start, sel_end and cursor_pos are UTF-8 character boundaries of the preedit (wf_reported_utf8; "
+            "comp_preedit_wf / comp_preedit_utf8 are statements about GetPreedit for arbitrary compositions).  The proof needs the source fact that Context::DeleteCandidate looks the candidate up before writing "
             "selected_index, which gen/eng_facts.py re-reads from context.cc on every run; for the unchecked code the same model "
             "proves the statement false (wf_reported_refuted_unchecked).  The extracted model is diffed observation by observation "
             "against the real API on two synthetic schemas, and the extracted predicate is evaluated on every observation of the "
             "implementation on the synthetic schemas, luna_pinyin and cangjie5 (both editors).",
     "note": "Closed under the global context (no axioms). Trusted: Coq kernel + vm_compute; gen/eng_facts.py, gen/keymaps.py; the "
             "Gallina port of the engine (validated by differential testing); ExtrOcamlBasic extraction and the OCaml/C++ glue. "
-            "Translator hypotheses (Section variables): candidate lists shorter than 2^31 - page_size; for the UTF-8 boundary clause "
-            "clean candidate texts/preedits and ASCII input. The stock schemas' extra components are covered by evaluating the "
+            "Translator hypotheses (premises of the theorems, instantiated for the synthetic schemas in C02_wf_reported*_synth): "
+            "candidate lists shorter than 2^31 - page_size; for the UTF-8 boundary clause clean candidate texts/preedits (implied by "
+            "valid UTF-8) and ASCII input. The stock schemas' extra components are covered by evaluating the "
             "predicate on the implementation only.",
 }
